@@ -7,5 +7,7 @@ def run(ctx):
     unique(ctx)
     ctx.run.bounds['hash_eq'] = 'numbers in parser normal form with |n| < 2^53 (Negative(i) => i < 0: the `-0` exclusion of the property), booleans, null, one-byte ASCII strings'
     specs = [('k_hash_agrees_with_eq_numbers', 'hash-eq-numbers', 'a == b => equal hash transcripts, over all 9 number variant pairs'),
-             ('k_scalar_rank_and_eq_hash', 'hash-eq-scalars', 'a == b => equal hash transcripts and cmp==Equal <=> ==, over all scalar type pairs')]
+             ('k_scalar_rank_and_eq_hash', 'hash-eq-scalars', 'a == b => equal hash transcripts and cmp==Equal <=> ==, over all scalar type pairs'),
+             ('k_from_f64_normalises', 'from-f64', 'numerically equal spellings meet in one representation: From<f64> maps every integral double of the integer ranges to the integer variant'),
+             ('k_integer_eq_exact', 'int-eq-exact', 'integers are equal (and hash alike) exactly when they are the same integer, over all u64 / i64')]
     kani_family(ctx, 'unique.hash_eq', 'Hash agrees with Eq on keys (the HashSet abstraction of unique.step is sound)', specs, ['json_value.rs'], timeout_s=900)
